@@ -1104,9 +1104,9 @@ impl DNSPkt {
         if trunc {
             // Update the header with the fact we truncated this.
             ret[2] |= 0b0000_0010;
-            ret.splice(6..7, ancount.to_be_bytes().iter().copied());
-            ret.splice(8..9, nscount.to_be_bytes().iter().copied());
-            ret.splice(10..11, adcount.to_be_bytes().iter().copied());
+            ret[6..8].copy_from_slice(&ancount.to_be_bytes());
+            ret[8..10].copy_from_slice(&nscount.to_be_bytes());
+            ret[10..12].copy_from_slice(&adcount.to_be_bytes());
         }
 
         ret
